@@ -403,3 +403,44 @@ def fractional_weights_probe(rep, n):
         done += 1
     rep.coverage.setdefault("families", {})["c20-fractional"] = {"cases": done}
     rep.coverage["evaluations"] = rep.coverage.get("evaluations", 0) + done
+
+
+def reentrant_threshold_probe(rep, n):
+    """threshold events fire exactly on upward crossings also when a threshold hook itself adds trust (a story's subclass:
+    reaching 60 unlocks a scene that adds more): over the whole movement old -> final each threshold is reported once iff crossed"""
+    from bardic.stdlib.relationship import Relationship
+    done = 0
+    for idx in range(n):
+        r = rng_for(rep.seed, "reentrant", idx)
+        bonus60, bonus80 = r.choice([0, 5, 25, 40]), r.choice([0, 0, 10])
+        events = []
+
+        class Rec(Relationship):
+            def on_trust_threshold_60(self):
+                events.append(60)
+                if bonus60:
+                    self.add_trust(bonus60)
+
+            def on_trust_threshold_80(self):
+                events.append(80)
+                if bonus80:
+                    self.add_trust(bonus80)
+        with quiet():
+            rel = Rec("Ann", r.randint(0, 100), 50, 0)
+            log = []
+            for _ in range(r.randint(1, 6)):
+                old = rel.trust
+                amt = r.randint(-40, 45)
+                del events[:]
+                rel.add_trust(amt)
+                final = rel.trust
+                log.append([old, amt, final, list(events)])
+                want = ([60] if old < 60 <= final else []) + ([80] if old < 80 <= final else [])
+                if sorted(events) != want or not (0 <= final <= 100):
+                    rep.violations.append({"cls": None, "family": "c20-reentrant", "log": log, "bonus_on_60": bonus60, "bonus_on_80": bonus80,
+                                           "what": (f"trust {old} -> {final} (add_trust({amt}); the hook for 60 adds {bonus60}, the one for 80 adds {bonus80}): "
+                                                    f"events {events}, upward crossings {want}")})
+                    break
+        done += 1
+    rep.coverage.setdefault("families", {})["c20-reentrant"] = {"cases": done}
+    rep.coverage["evaluations"] = rep.coverage.get("evaluations", 0) + done
